@@ -454,6 +454,14 @@ def _prepare_for_each(
     condition_spec = spec.get("condition")
     if not condition_spec:
         condition = None
+    elif not isinstance(condition_spec, dict):
+        return structure.ErrorStep(
+            label=step_label,
+            outcome=PermFail(
+                message=f"`{step_label}.forEach.condition` must be an object, can not prepare Workflow."
+            ),
+            condition=None,
+        )
     else:
         condition = structure.StepConditionSpec(
             type_=condition_spec.get("type"),
